@@ -935,6 +935,70 @@ def b12(rep, w):
             % sorted(set(bad)), f.loc())
 
 
+def stack_outcomes(w, f):
+    """{jump taken?: set of net stack effects} over the error-free paths of a fixed-size opcode handler, or None if the handler is not of that kind"""
+    VMP = 'yarel::vm::Vm::'
+    err_fns = {VMP + 'try_handle_error', VMP + 'unwind_stack', VMP + 'runtime_error'}
+    eff = {}
+    fixed = True
+    jumps = set()
+    for bi, t in f.calls():
+        n = callee_name(t)
+        if n == VMP + 'pop':
+            eff[bi] = -1
+        elif n == VMP + 'push':
+            eff[bi] = 1
+        elif n == VMP + 'discard':
+            k = op_const(t['args'][1]) if len(t['args']) > 1 else None
+            if k is None or not isinstance(k.get('v'), int):
+                fixed = False
+            else:
+                eff[bi] = -k['v']
+        elif n in (VMP + 'peek', VMP + 'poke', VMP + 'read_byte', VMP + 'read_short', VMP + 'read_constant', VMP + 'read_string') or n in err_fns:
+            pass
+        elif n is not None and n.startswith(VMP) and w.fns.get(n) is not None:
+            # another VM routine that may move the stack itself (calls, frames, fibers ...): not a fixed-size handler
+            g = w.fns[n]
+            if any((callee_name(t2) or '') in (VMP + 'pop', VMP + 'push', VMP + 'discard') or 'Stack' in (callee_name(t2) or '') or 'frames' in str(t2.get('args')) for _, t2 in g.calls()):
+                fixed = False
+        if strip_generics(n or '').endswith(('::offset', '::add', '::sub')) and 'ptr' in (n or ''):
+            jumps.add(bi)
+    # writes of self.ip mark the 'jump taken' paths
+    for bi in f.normal_blocks():
+        for s_ in f.blocks[bi]['s']:
+            d = s_.get('d') or {}
+            if d.get('p') and isinstance(d['p'][-1], dict) and d['p'][-1].get('n') == 'ip':
+                jumps.add(bi)
+    if not fixed or not eff:
+        return None
+    errs = {bi for bi, t in f.calls() if callee_name(t) in err_fns}
+    for bi in f.normal_blocks():
+        for s_ in f.blocks[bi]['s']:
+            rr = s_.get('r', {})
+            if (s_.get('d') or {}).get('l') == 0 and rr.get('rv') == 'agg' and rr.get('v') == 'Err':
+                errs.add(bi)
+    outcomes = {}      # jumped? -> set of net effects
+    seen = set()
+    todo = [(0, 0, False)]
+    steps = 0
+    while todo and steps < 20000:
+        steps += 1
+        b, net, jumped = todo.pop()
+        if (b, net, jumped) in seen or b in errs:
+            continue
+        seen.add((b, net, jumped))
+        net2 = net + eff.get(b, 0)
+        j2 = jumped or b in jumps
+        t = f.blocks[b]['t']
+        if t['t'] == 'return':
+            outcomes.setdefault(j2, set()).add(net2)
+            continue
+        for s_ in f.succs()[b]:
+            if s_ in f.normal_blocks() and abs(net2) < 8:
+                todo.append((s_, net2, j2))
+    return outcomes
+
+
 def b13(rep, w):
     """the compiler counts stack slots per instruction, so what an instruction does to the height of the operand stack is a function of the
     instruction (and, for a conditional jump, of whether it jumps) - not of which of the handler's internal paths served it. Decided for the
@@ -953,63 +1017,9 @@ def b13(rep, w):
     err_fns = {VMP + 'try_handle_error', VMP + 'unwind_stack', VMP + 'runtime_error'}
     for hn in sorted(handlers):
         f = w.fns[hn]
-        eff = {}
-        fixed = True
-        jumps = set()
-        for bi, t in f.calls():
-            n = callee_name(t)
-            if n == VMP + 'pop':
-                eff[bi] = -1
-            elif n == VMP + 'push':
-                eff[bi] = 1
-            elif n == VMP + 'discard':
-                k = op_const(t['args'][1]) if len(t['args']) > 1 else None
-                if k is None or not isinstance(k.get('v'), int):
-                    fixed = False
-                else:
-                    eff[bi] = -k['v']
-            elif n in (VMP + 'peek', VMP + 'poke', VMP + 'read_byte', VMP + 'read_short', VMP + 'read_constant', VMP + 'read_string') or n in err_fns:
-                pass
-            elif n is not None and n.startswith(VMP) and w.fns.get(n) is not None:
-                # another VM routine that may move the stack itself (calls, frames, fibers ...): not a fixed-size handler
-                g = w.fns[n]
-                if any((callee_name(t2) or '') in (VMP + 'pop', VMP + 'push', VMP + 'discard') or 'Stack' in (callee_name(t2) or '') or 'frames' in str(t2.get('args')) for _, t2 in g.calls()):
-                    fixed = False
-            if strip_generics(n or '').endswith(('::offset', '::add', '::sub')) and 'ptr' in (n or ''):
-                jumps.add(bi)
-        # writes of self.ip mark the 'jump taken' paths
-        for bi in f.normal_blocks():
-            for s_ in f.blocks[bi]['s']:
-                d = s_.get('d') or {}
-                if d.get('p') and isinstance(d['p'][-1], dict) and d['p'][-1].get('n') == 'ip':
-                    jumps.add(bi)
-        if not fixed or not eff:
+        outcomes = stack_outcomes(w, f)
+        if outcomes is None:
             continue
-        errs = {bi for bi, t in f.calls() if callee_name(t) in err_fns}
-        for bi in f.normal_blocks():
-            for s_ in f.blocks[bi]['s']:
-                rr = s_.get('r', {})
-                if (s_.get('d') or {}).get('l') == 0 and rr.get('rv') == 'agg' and rr.get('v') == 'Err':
-                    errs.add(bi)
-        outcomes = {}      # jumped? -> set of net effects
-        seen = set()
-        todo = [(0, 0, False)]
-        steps = 0
-        while todo and steps < 20000:
-            steps += 1
-            b, net, jumped = todo.pop()
-            if (b, net, jumped) in seen or b in errs:
-                continue
-            seen.add((b, net, jumped))
-            net2 = net + eff.get(b, 0)
-            j2 = jumped or b in jumps
-            t = f.blocks[b]['t']
-            if t['t'] == 'return':
-                outcomes.setdefault(j2, set()).add(net2)
-                continue
-            for s_ in f.succs()[b]:
-                if s_ in f.normal_blocks() and abs(net2) < 8:
-                    todo.append((s_, net2, j2))
         bad = {j: sorted(v) for j, v in outcomes.items() if len(v) > 1}
         r.check(not bad, '%s / net stack effect' % hn.replace('yarel::', ''),
                 '%s changes the height of the operand stack by %s depending on the path taken inside the handler (%s): the compiler assumes one effect per instruction, so after '
